@@ -315,7 +315,7 @@ def git_ignored(root, submods=()):
 
 
 def generate(tier, seed):
-    n_plain, n_git = (80, 30) if tier == "quick" else (12000, 3000)
+    n_plain, n_git = (200, 90) if tier == "quick" else (12000, 3000)
     cases = [{"k": k, "git": False} for k in range(n_plain)] + [{"k": n_plain + k, "git": True} for k in range(n_git)]
     return cases
 
